@@ -318,6 +318,14 @@ def _run_chunk(func, chunk):
 # exception classification (DESIGN 2.3)
 # ---------------------------------------------------------------------------------------------
 
+def verbose_for(text) -> bool:
+    """The parser's `verbose` switch is an input like any other: on for a quarter of the
+    documents, chosen by their contents so that a replay makes the same choice."""
+    import zlib  # pylint: disable=import-outside-toplevel
+    data = text if isinstance(text, bytes) else str(text).encode('utf-8', 'replace')
+    return zlib.crc32(data) % 4 == 0
+
+
 LIBRARY_ERRORS = ('AdvShellError', 'MultiClientCfgError', 'FindError', 'DznJsonError',
                   'NamespaceIdsTypeError', 'CppGenError')
 
